@@ -633,6 +633,8 @@ class ASL_API Var
 		char _ss[VAR_SSPACE];
 	};
 	void free();
+	bool ownsNested() const;
+	void detachNested(Array<Var>& pending);
 	friend class XdlEncoder;
 };
 
